@@ -6,9 +6,13 @@
   Values are exact rationals: every theorem holds for ALL value sequences and ALL ranges (also
   degenerate and inverted ones) over `Rat`; rounding of `double`, infinities and NaN are outside the model.
   `parts xs range` is the record sequence of the caller's loop (repeated calls advancing by `raw`).
-  Not modelled: the re-apply/merge path of `linepart::array::apply` in mpt++/linepart.cpp.
+  The C++ layer (mpt++/linepart.cpp `linepart::array::set/apply` with its merge path, the part view of
+  mpt++/polyline.cpp) is modelled in Impl/LinepartArray.lean and tied to the code by the second driver part
+  (harness/drvxx_linepart.cpp); its partition property is stated (`merge_statement`) and checked per script by
+  the model driver, not proved.  `polyline::set` / `apply_data` / `value_store` are not modelled.
 -/
 import MptModel.Lemmas.LinepartFlag
+import MptModel.Impl.LinepartArray
 
 namespace Mpt.C18
 open Mpt.Visible Mpt.Linepart
@@ -139,5 +143,15 @@ theorem join_total (to post j : Part) (h : linepartJoin to post = some j) :
   refine ⟨rfl, rfl, rfl, rfl, ?_, ?_, ?_, ?_⟩ <;> first | omega | (simp only []; omega)
 
 example : linepartJoin ⟨3, 3, 7, 0⟩ ⟨2, 2, 0, 9⟩ = some ⟨5, 5, 7, 9⟩ := by decide +kernel
+
+/-! ### Stated, not proved (checked per script by the model driver and tied to the code by the C++ driver part) -/
+
+/-- the merge path of `linepart::array::apply` (as `polyline::set` uses it: parts for `n` points first, then
+    one dimension applied): the parts still consume every point once, and every point visible in the range is
+    drawn by exactly one part, with visible interiors -/
+def merge_statement : Prop :=
+  ∀ (xs : List Rat) (r : Range) (ps : List Part),
+    arrayApply (arraySet xs.length) xs (some r) = some ps →
+      (ps.map (·.raw)).sum = xs.length ∧ (∀ i, insideAt r xs i → drawnCount ps 0 i = 1) ∧ InteriorVisible r xs ps 0
 
 end Mpt.C18
